@@ -226,17 +226,21 @@ func c10Events(p *Prog, r *Report) {
 		}
 		var pub *ssa.Call
 		var keep ssa.Instruction
-		forEachCall(fn, func(site ssa.CallInstruction) {
-			c, ok := site.(*ssa.Call)
-			if !ok {
-				return
-			}
-			if staticCallee(&c.Call, repoMod+"/spine", "events", "Publish") {
-				pub = c
-			}
-			if builtinName(&c.Call) == "append" {
-				keep = c
-			}
+		var pubAt ssa.Instruction
+		p.InScope(fn, func() {
+			forEachCall(fn, func(site ssa.CallInstruction) {
+				c, ok := site.(*ssa.Call)
+				if !ok {
+					return
+				}
+				if staticCallee(&c.Call, repoMod+"/spine", "events", "Publish") {
+					pub = c
+					pubAt = liftInScope(c) // the publication may sit in an extracted helper: its place in the loop is the helper's call
+				}
+				if builtinName(&c.Call) == "append" && c.Parent() == fn {
+					keep = c
+				}
+			})
 		})
 		base := "spine." + m.typ + "." + m.ent
 		if pub == nil || keep == nil {
@@ -245,12 +249,12 @@ func c10Events(p *Prog, r *Report) {
 		}
 		// within one iteration either the entry is kept or the event is published
 		header := loopHeaderOf(keep.Block())
-		excl := !reachesAvoiding(keep.Block(), pub.Block(), header) && !reachesAvoiding(pub.Block(), keep.Block(), header)
+		excl := pubAt != nil && pubAt.Parent() == fn && !reachesAvoiding(keep.Block(), pubAt.Block(), header) && !reachesAvoiding(pubAt.Block(), keep.Block(), header)
 		ev := eventFields(pub.Call.Args[len(pub.Call.Args)-1])
 		et, _ := constInt(ev["EventType"])
 		ct, _ := constInt(ev["ChangeType"])
 		okEv := et == evConst(m.ev) && ct == evConst("ElementChangeRemove") && ev["Device"] != nil && ev["Entity"] != nil
-		r.Check("R4", base+"|event", cyclic(pub.Block()) && excl && okEv, p.InstrPos(pub), fmt.Sprintf("publication in the loop, exclusive with keeping the entry: %v; event type %d change %d", excl, et, ct))
+		r.Check("R4", base+"|event", pubAt != nil && cyclic(pubAt.Block()) && excl && okEv, p.InstrPos(pub), fmt.Sprintf("publication in the loop, exclusive with keeping the entry: %v; event type %d change %d", excl, et, ct))
 	}
 	dli := p.LookupIface("api", "DeviceLocalInterface")
 	for _, fn := range p.ImplsOf(dli, "RemoveRemoteDeviceConnection") {
